@@ -34,7 +34,7 @@ enum {
     C_G_ADD_GE, C_G_ADD_VAR, C_G_ADD_GE_VAR, C_G_ADD_ZINV, C_G_DOUBLE, C_G_SET_ALL, C_G_LIFT_FAIL,
     C_EM_ECMULT, C_EM_GEN, C_EM_GEN_BLINDED, C_EM_CONST, C_EM_XONLY, C_EM_XONLY_REJECT, C_EM_RES_INF, C_EM_EDGE_SCALAR, C_EM_NT,
     C_MM_RUN, C_MM_N0, C_MM_N_LT88, C_MM_N_GE88, C_MM_N_GE236, C_MM_SCRATCH_NULL, C_MM_SCRATCH_TINY, C_MM_SCRATCH_STRAUSS,
-    C_MM_SCRATCH_PIPP, C_MM_SCRATCH_PART, C_MM_SCRATCH_LARGE, C_MM_RET0, C_MM_CB_FAIL, C_MM_RES_INF, C_MM_NT,
+    C_MM_SCRATCH_PIPP, C_MM_SCRATCH_PART, C_MM_SCRATCH_LARGE, C_MM_RET0, C_MM_CB_FAIL, C_MM_RES_INF, C_MM_PIPP88, C_MM_NT,
     C_SKIPPED_BUDGET, C_N
 };
 const char *const VF_CLASS_NAMES[] = {
@@ -50,7 +50,7 @@ const char *const VF_CLASS_NAMES[] = {
     "ge_op_add_ge", "ge_op_add_var", "ge_op_add_ge_var", "ge_op_add_zinv_var", "ge_op_double", "ge_op_set_all_gej", "ge_lift_x_fail",
     "em_ecmult", "em_gen", "em_gen_blinded", "em_const", "em_const_xonly", "em_xonly_reject", "em_result_inf", "em_edge_scalar", "em_nontrivial",
     "mm_run", "mm_n_0", "mm_n_lt88", "mm_n_ge88", "mm_n_ge236", "mm_scratch_null", "mm_scratch_tiny", "mm_scratch_strauss_exact",
-    "mm_scratch_pippenger_exact", "mm_scratch_partial", "mm_scratch_large", "mm_returned_0", "mm_callback_fail", "mm_result_inf", "mm_nontrivial",
+    "mm_scratch_pippenger_exact", "mm_scratch_partial", "mm_scratch_large", "mm_returned_0", "mm_callback_fail", "mm_result_inf", "mm_ge88_with_scratch", "mm_nontrivial",
     "skipped_for_budget"
 };
 const int VF_N_CLASSES = C_N;
@@ -66,16 +66,16 @@ static void a_fail(const char *msg) {
 #define CHK(cond, msg) do { if (!(cond)) a_fail(msg); } while (0)
 
 /* ------------------------------------------------------------------ cost control */
-/* four credit pools (units of ~10 us): hashing, group programs, single multiplications, multi-multiplication.  Every call
+/* credit pools (units of ~10 us): hashing (short / long), group programs, single multiplications, multi-multiplication (few / many points).  Every call
  * of the target adds a fixed amount to each pool, a sub-target draws only from its own pool (so the cheap ones cannot
  * starve the expensive ones), the field / scalar / modinv / int128 sub-targets are not throttled. */
-enum { P_HASH, P_GROUP, P_EM, P_MM, P_N };
+enum { P_HASH, P_HASHL, P_GROUP, P_EM, P_MM, P_MML, P_N };     /* HASHL: messages > 4096 bytes, MML: n >= 88 points (each would be starved by its cheap siblings) */
 #ifndef CREDIT_SCALE
 # define CREDIT_SCALE 1
 #endif
-static const long POOL_ADD[P_N] = {10 * CREDIT_SCALE, 15 * CREDIT_SCALE, 30 * CREDIT_SCALE, 25 * CREDIT_SCALE};   /* tenths of a unit per call */
-static const long POOL_MAX[P_N] = {120000, 20000, 40000, 120000};                                                    /* tenths of a unit */
-static long g_pool[P_N] = {120000, 20000, 40000, 120000};
+static const long POOL_ADD[P_N] = {10 * CREDIT_SCALE, 7 * CREDIT_SCALE, 15 * CREDIT_SCALE, 30 * CREDIT_SCALE, 10 * CREDIT_SCALE, 25 * CREDIT_SCALE};   /* tenths of a unit per call */
+static const long POOL_MAX[P_N] = {5000, 120000, 20000, 40000, 20000, 60000};                                                                          /* tenths of a unit */
+static long g_pool[P_N] = {5000, 120000, 20000, 40000, 20000, 60000};
 static void pools_tick(void) { int i; for (i = 0; i < P_N; i++) { g_pool[i] += POOL_ADD[i]; if (g_pool[i] > POOL_MAX[i]) g_pool[i] = POOL_MAX[i]; } }
 static int afford(int pool, long cost) {
     cost *= 10;
